@@ -577,7 +577,7 @@ SSet(o, m, c, n) ==
              [] m = "self" -> cur
              [] m = "tail" -> RLEDrop(cur, n)
              [] OTHER      -> cur IN
-  IF nm = "" \/ (m = "new" /\ n > RunTotal(c, 1)) \/ (m # "new" /\ (len = 0 \/ n > len))
+  IF nm = "" \/ (m = "new" /\ n > RunTotal(c, 1)) \/ (m # "new" /\ len = 0) \/ (m = "tail" /\ (n < 0 \/ n > len))
   THEN Same /\ Answer("sset", arg, "skipped", "", <<>>)        \* the harness does not make such a call
   ELSE Touch(o, nm, d) /\ Answer("sset", arg, "ok", nm, d)
 
